@@ -64,6 +64,7 @@ def _run_one(args):
     mut, props, src_repo = args
     sys.path.insert(0, os.path.dirname(HERE))
     os.environ['SA_NO_SELFTEST'] = '1'
+    os.environ['SA_NORM_CACHE'] = '1'       # scratch copies share the normal forms of the files they leave unchanged (keyed by file content and normaliser sources)
     tmp = tempfile.mkdtemp(prefix='sa_mut_')
     evd = tempfile.mkdtemp(prefix='sa_ev_')
     os.environ['SA_EVIDENCE_DIR'] = evd
